@@ -2,13 +2,15 @@ use crate::runner::{Ctx, Rec, Verdict};
 use serde_json::Value as J;
 
 pub mod c01;
+pub mod c02;
 pub mod common;
 
-pub const ALL: &[&str] = &["C01"];
+pub const ALL: &[&str] = &["C01", "C02"];
 
 pub fn run(prop: &str, ctx: &mut Ctx) -> bool {
     match prop {
         "C01" => c01::run(ctx),
+        "C02" => c02::run(ctx),
         _ => return false,
     }
     true
@@ -17,6 +19,7 @@ pub fn run(prop: &str, ctx: &mut Ctx) -> bool {
 pub fn replay(prop: &str, kind: &str, case: &J, rec: &mut Rec) -> Verdict {
     match prop {
         "C01" => c01::replay(kind, case, rec),
+        "C02" => c02::replay(kind, case, rec),
         _ => Verdict::fail("infra:unknown-property", prop),
     }
 }
